@@ -11,6 +11,8 @@ PUNCT = ['(', ')', '{', '}', '[', ']', ';', ',', '.', '=', '==', '->', '::', '+'
 CJK = ['日本', '語', '中文', '漢字', 'かな', 'カナ', '한']
 COMBINING = ['é', 'ö', 'á']
 LEADING_EXTENDERS = ['\u0301', '\u0308', '\ufe0f', '\u200d']
+# letters whose lower-case form has another UTF-8 length (byte offsets computed on a case-folded copy go wrong)
+CASE_LENGTH = ['\u0130stanbul', '\u1e9e', '\u212a', '\u212b', '\u2126']
 EMOJI = ['😀', '🎉']
 MARKERLIKE = ['-- x', '--- x', '- y', '++ x', '+++ x', '+ y', '@@ x @@', '@@ -1,2 +1,2 @@', '\\ No newline',
               '\\', 'diff x', 'diff --git a/q b/q', 'commit abc', 'index 123..456', '--', '++', '@@',
@@ -46,6 +48,8 @@ def rand_text(rng, maxlen=40, unicode_ok=True, tabs_ok=True, allow_empty=True):
             parts.append(rng.choice(COMBINING))
         elif q < 0.85 and unicode_ok:
             parts.append(rng.choice(EMOJI))
+        elif q < 0.86 and unicode_ok:
+            parts.append(rng.choice(CASE_LENGTH))
         elif q < 0.88 and tabs_ok:
             parts.append('\t')
         else:
